@@ -32,6 +32,8 @@ def run(ctx):
                                     basis_leaves=1 if q else 6)
     words += [((rnd.choice([0b11101, 0b11110, 0b11111]) << 27) | rnd.getrandbits(27), None, 'uniform')
               for _ in range(4000 if q else 150000)]
+    cw = S.class_word_list(ctx.seed, 4 if q else 40)
+    words += [(w, None, 'classword') for th, w in cw if th]
     groups, res = D.run_words(ctx, rnd, words, thumb=True)
     D.check_cube_class(res)
     # the repository's own tests as a trace source: every emulate_cycle() they perform, judged on the complete state
